@@ -94,8 +94,30 @@ CLAIMED["C13"] = (
     "tree. Generated code is never executed.",
     _NOTE, "DESIGN.md section 5, C13")
 
-for _p in ["C01", "C02", "C03", "C05", "C10", "C11",
-           "C12", "C15", "C16", "C17", "C19"]:
+CLAIMED["C01"] = (
+    "symbolic instantiation of the generated __eq__/__hash__ code template "
+    "(f-string holes expanded for 0..3 symbolic fields, result parsed and "
+    "analysed path by path); class census over the node table; who-may-write "
+    "(ownership) rule over every setattr site and every mapper handler",
+    "The mechanism that makes equality structural, hashes consistent and nodes "
+    "immutable is decided for every node class at once: the template's paths, "
+    "the decorator's dataclass arguments, the census of classes that bypass it, "
+    "and every place in the package that could rebind a node attribute.",
+    _NOTE, "DESIGN.md section 5, C01")
+
+CLAIMED["C17"] = (
+    "same template instantiation for __getstate__/__setstate__; census of "
+    "pickle bypasses; taint-style rule on every value reaching the persistent "
+    "digest (must be a process-independent string) and on iteration order of "
+    "mapping-valued fields",
+    "State = field tuple only and digest inputs/iteration order are facts about "
+    "the code, decided for all expressions; cross-process behaviour follows "
+    "because nothing process-dependent (hash(), id(), dict order of equal "
+    "mappings, cached hash) can enter state or digest.",
+    _NOTE, "DESIGN.md section 5, C17")
+
+for _p in ["C02", "C02", "C03", "C05", "C10", "C11",
+           "C12", "C15", "C16", "C19"]:
     NOT_APPLICABLE[_p] = ("check under construction in this revision (see "
                           "DESIGN.md for the planned static rule)")
 NOT_APPLICABLE["C18"] = (
